@@ -896,8 +896,13 @@ func executePlugin(ctx context.Context, installedPlugin pluginframework.VerifyPl
 	extendedAttributes := make(map[string]interface{})
 
 	for _, attr := range getNonPluginExtendedCriticalAttributes(signerInfo) {
-		extendedAttributes[attr.Key.(string)] = attr.Value
-		attributesToProcess = append(attributesToProcess, attr.Key.(string))
+		// the plugin protocol carries string keys only: an attribute with
+		// any other key cannot be handed to the plugin and is reported as
+		// unprocessed when the response is examined
+		if key, ok := attr.Key.(string); ok {
+			extendedAttributes[key] = attr.Value
+			attributesToProcess = append(attributesToProcess, key)
+		}
 	}
 	logger.Debugf("Added plugin attributes to be processed %v", attributesToProcess)
 
